@@ -313,7 +313,7 @@ Arguments c_masses {M}. Arguments c_byb {M}.
 Definition pick_list {M} (rng : list nat) (n : nat) (w : option (list M)) : res (nat * list nat) :=
   match rng with [] => Err EStopIter | i :: r => Ok (i, r) end.
 
-(** * Finalisation on the observable graph form: nodes (key, attrs) in order, edges (u, v, attrs) *)
+(** * The observable graph form: nodes (key, attrs) in order, edges (u, v, attrs) *)
 Definition ograph := (list (Z * attrs) * list (Z * Z * attrs))%type.
 
 Definition onode_of (n : mnode) : Z * attrs :=
@@ -324,69 +324,3 @@ Definition oedge_of (e : medge) : Z * Z * attrs :=
                               | Some (a, b) => [(S "bonding", VTup [VStr a; VStr b])]
                               | None => [] end).
 Definition observe_mol (m : mol) : ograph := (map onode_of (m_nodes m), map oedge_of (m_edges m)).
-
-(** sort key of sort_nodes_by_attr: (fragid list, node key); fragid lists are one-element lists *)
-Definition fragid_of_attrs (a : attrs) : res Z :=
-  match aget sample_sort_attr a with
-  | Some (VList [VInt k]) => Ok k
-  | Some _ => Err EType
-  | None => Err EKey
-  end.
-Definition key_le (a b : Z * Z) : bool := (fst a <? fst b) || ((fst a =? fst b) && (snd a <=? snd b)).
-Fixpoint ins_sorted (x : Z * Z) (l : list (Z * Z)) : list (Z * Z) :=
-  match l with [] => [x] | y :: r => if key_le x y then x :: y :: r else y :: ins_sorted x r end.
-Definition sort_pairs (l : list (Z * Z)) : list (Z * Z) := fold_right ins_sorted [] l.
-Fixpoint collect_fragids (ns : list (Z * attrs)) : res (list (Z * Z)) :=
-  match ns with
-  | [] => Ok []
-  | (k, a) :: r =>
-      match aget sample_sort_attr a with
-      | None => collect_fragids r              (* nx.get_node_attributes skips nodes without it *)
-      | Some _ => f <- fragid_of_attrs a ;; rest <- collect_fragids r ;; Ok ((f, k) :: rest)
-      end
-  end.
-(** sort_nodes_by_attr(graph, sort_attr="fragid"): relabel_nodes(copy=True) keeps the OLD node
-    order; the relative attribute 'ez_isomer_atoms' is outside the modelled part (EType) *)
-Definition sort_nodes_by_attr (g : ograph) : res ograph :=
-  fk <- collect_fragids (fst g) ;;
-  let sorted := sort_pairs fk in
-  let mapping := combine (map snd sorted) (map Z.of_nat (seq 0 (length sorted))) in
-  let f k := match assocz k mapping with Some k' => k' | None => k end in
-  if existsb (fun ka => ahas (S "ez_isomer_atoms") (snd ka)) (fst g) then Err EType else
-  Ok (map (fun ka => (f (fst ka), snd ka)) (fst g),
-      map (fun e => let '(u, v, a) := e in (f u, f v, a)) (snd g)).
-
-(** set_atom_names_atomistic(molecule): per fragid (dict in order of first appearance), the
-    nodes in iteration order get element + running index *)
-Fixpoint group_addz (d : Z) (x : Z) (g : list (Z * list Z)) : list (Z * list Z) :=
-  match g with
-  | [] => [(d, [x])]
-  | (d', l) :: r => if Z.eqb d d' then (d', l ++ [x]) :: r else (d', l) :: group_addz d x r
-  end.
-Fixpoint update_onode (k : Z) (f : attrs -> attrs) (ns : list (Z * attrs)) : list (Z * attrs) :=
-  match ns with [] => [] | (k', a) :: r => if Z.eqb k k' then (k', f a) :: r else (k', a) :: update_onode k f r end.
-Definition set_atom_names_atomistic (g : ograph) : res ograph :=
-  fl <- (fix go (ns : list (Z * attrs)) (acc : list (Z * list Z)) : res (list (Z * list Z)) :=
-           match ns with
-           | [] => Ok acc
-           | (k, a) :: r =>
-               match aget (S "fragid") a with
-               | None => go r acc
-               | Some (VList [VInt f]) => go r (group_addz f k acc)
-               | Some (VList _) => Err EAssert
-               | Some _ => Err EType
-               end
-           end) (fst g) [] ;;
-  ns <- fold_left (fun acc fn =>
-          fold_left (fun acc2 ik =>
-            ns <- acc2 ;;
-            a <- of_option (assocz (snd ik) ns) EKey ;;
-            e <- attr_str (S "element") a ;;
-            Ok (update_onode (snd ik) (aset (S "atomname") (VStr (e ++ str_of_nat (fst ik)))) ns))
-            (combine (seq 0 (length (snd fn))) (snd fn)) acc) fl (Ok (fst g)) ;;
-  Ok (ns, snd g).
-
-(** finalisation of sample(): (hydrogens: transcript) ; sort ; names *)
-Definition finalise (all_atom : bool) (g : ograph) : res ograph :=
-  g1 <- sort_nodes_by_attr g ;;
-  if all_atom then set_atom_names_atomistic g1 else Ok g1.
